@@ -25,6 +25,7 @@ func init() {
 			{ID: "C09.R3", Floor: 2, Run: c09r3, Text: "Query.lockBit is read only by the close function, which releases it exactly once and marks the query closed"},
 			{ID: "C09.R4", Floor: 10, Run: c09r4, Text: "closing discipline (path summaries): Next and Step return false only on paths with exactly one close and true only on paths with none; Close closes exactly once; no other exported Query method closes"},
 			{ID: "C09.R5", Floor: 1, Run: c09r5, Text: "registration rollback: a component-registry insert that happens before the lock test is followed on every path by the lock test, and the locked edge calls a function whose mod-set covers the insert's before panicking"},
+			{ID: "C09.R7", Floor: 4, Run: c09r7, Text: "Reset restores the lock state (= C15.R1 for lockMask and bitPool): every run-state field of the lock mask and the lock-bit pool is written by World.Reset, so that lock bits issued after a reset are distinct"},
 			{ID: "C09.R6", Floor: 2, Run: c09r6, Text: "the lock-bit pool's array length and the constant in its exhaustion guard (panic edge dominating the array write) both equal MaskTotalBits of the build"},
 		},
 	})
@@ -994,4 +995,14 @@ func typeReachesArche(t types.Type, d int) bool {
 		return typeReachesArche(x.Elem(), d+1)
 	}
 	return false
+}
+
+func c09r7(p *Prog, r *Reporter) {
+	tmp := &Reporter{p: p, rule: r.rule}
+	c15r1(p, tmp)
+	for _, o := range tmp.obs {
+		if strings.Contains(o.Construct, "bitPool.") || strings.Contains(o.Construct, "lockMask.") {
+			r.add(o.Func, o.Construct, o.Pos, o.Status, o.Detail, o.Nontrivial)
+		}
+	}
 }
